@@ -531,3 +531,16 @@ where
         Ok(())
     }
 }
+
+#[cfg(feature = "verif-hooks")]
+impl<RK, DLY> LoRa<RK, DLY>
+where
+    RK: RadioKind,
+    DLY: DelayNs,
+{
+    /// Read-only projection of the driver's bookkeeping (radio mode, cold start pending,
+    /// image calibration pending) for external verification harnesses.
+    pub fn verif_state(&self) -> (RadioMode, bool, bool) {
+        (self.radio_mode, self.cold_start, self.calibrate_image)
+    }
+}
